@@ -12,6 +12,11 @@ CLAIMS = {
          "Histories of 1..4 messages are sent through QueuePackage/SendRemainingPackets/SendPackage on a real Channel whose transport records every Write; the captured bytes must parse as packets with exact header lengths, full inner packets, right type/channel, EOM on exactly the last packet of each message and bodies concatenating to the packages' encodings, with nothing carried into the next message; all combinations of 6 packet sizes x k 1..3 x d -1..1 x layouts x flush styles are enumerated.",
          "Channel 0, single goroutine; expected encodings come from the packages' own WriteTo on an independent flat channel (package layouts themselves are C06's subject); packet sizes 256..65535.",
          "DESIGN.md section 3, C01"),
+ "C02": ("exploration",
+         "differential / metamorphic testing: rapid response grammar x cut sets x read partitions, fragmented delivery vs. single-packet delivery (reflect.DeepEqual) and vs. a delivery model; exhaustive 1-/2-cut and 2^(n-1) cut-set enumeration of short responses",
+         "Responses from a grammar over all server-side package and data types are delivered once in a single packet/read and once fragmented (packet level through Channel.WritePacket, byte level through the real reader goroutine over a scripted transport whose read() results are generated); both must deliver identical package sequences equal to the delivery model and queue no error; every single cut (thorough: every pair incl. header-only packets) of short responses and all 2^(n-1) cut sets of 5 tiny streams are enumerated.",
+         "Server packets are type RESPONSE on channel 0; non-informational EED only between statements; responses are kept short so that cut sets can be enumerated; the byte level uses the verif hook that mirrors NewConn's tail.",
+         "DESIGN.md section 3, C02"),
  "C04": ("exploration",
          "rapid value generators per data type (boundary-biased) + exhaustive small domains / every day / every tick; oracle = round trip (Bytes -> GoValue -> Bytes) compared through an independent value description",
          "Every data type with a Go mapping (each legal width of the nullable families) is round-tripped for generated values over the whole Go domain; 8- and 16-bit domains, NULLs, every day of years 1..9999 and every 1/300 s tick are enumerated completely in the thorough tier (stride-sampled in quick).",
@@ -27,6 +32,11 @@ CLAIMS = {
          "Every package type reachable from LookupPackage (narrow and wide) is generated; server-sent forms come from an independently written encoder and must decode to the generated fields consuming exactly the bytes; whatever the library writes must be decodable by the independent decoder into the same fields and be read back by the library itself; client-built packages (exported API) and the 568-byte login record are decoded independently; every capability bit and every login field length 0..31 are enumerated.",
          "The reference codec is my reading of TDS 5.0. BLOB formats are a recorded open finding (unfinished in the library) and excluded from generation. Data status bytes are generated as 0.",
          "DESIGN.md section 3, C06"),
+ "C07": ("exploration",
+         "exhaustive prefix enumeration of rapid-generated valid encodings of every package type in a real PacketQueue (one packet, 1-byte packets, channel level); oracle = errors.Is(ErrNotEnoughBytes) + re-parse equality with the untruncated parse",
+         "For generated valid encodings of all 33 parser kinds every proper prefix (all for encodings <= 300 bytes; first 300 + span boundaries + 50 sampled beyond) must make ReadFrom report ErrNotEnoughBytes - never success, another error or a panic - and parsing the complete bytes afterwards from the restored position must equal a direct parse; at channel level a prefix packet followed by the remainder must deliver the package exactly once and queue no error.",
+         "Only valid encodings are truncated (hostile bytes are C10's subject); KEY over types with 0/1-byte length prefix.",
+         "DESIGN.md section 3, C07"),
  "C15": ("exploration",
          "rapid model-based operation sequences (rx and tx usage) against a flat byte-slice / packet-layout model + exhaustive enumeration of all short sequences over a tiny packet size",
          "Operation sequences over the exported PacketQueue API are compared step by step with a flat byte model (bytes out = bytes in, in order; short read = ErrNotEnoughBytes; restore re-reads; discard is invisible) and a layout model for writes (Position after every write); all sequences up to length 5/6 (quick) and 7/8 (thorough) over small alphabets are enumerated completely.",
